@@ -117,8 +117,14 @@ class CIGAR(list):
       elif version == "gfa2":
         if not re.match(r"^([0-9]+[MIDP])+$", string):
           raise gfapy.FormatError()
-    for m in re.finditer("([0-9]+)([MIDNSHPX=])", string):
-      cigar.append(CIGAR.Operation(int(m.group(1)), m.group(2)))
+    try:
+      for m in re.finditer("([0-9]+)([MIDNSHPX=])", string):
+        cigar.append(CIGAR.Operation(int(m.group(1)), m.group(2)))
+    except ValueError as err:
+      # e.g. more digits than the integer string conversion allows
+      raise gfapy.FormatError(
+          "CIGAR string contains an invalid operation length\n"+
+          "{}".format(err))
     return cigar
 
   def __str__(self):
